@@ -137,11 +137,12 @@ impl<L: LSPLang> LanguageServer for Backend<L> {
       .await;
   }
   async fn did_open(&self, params: DidOpenTextDocumentParams) {
+    // on_open stores the document before it awaits anything, so it must run first
+    self.on_open(params).await;
     self
       .client
       .log_message(MessageType::INFO, "file opened!")
       .await;
-    self.on_open(params).await;
   }
 
   async fn did_change(&self, params: DidChangeTextDocumentParams) {
@@ -254,32 +255,36 @@ impl<L: LSPLang> Backend<L> {
 
   async fn on_open(&self, params: DidOpenTextDocumentParams) -> Option<()> {
     let text_doc = params.text_document;
+    let uri = text_doc.uri.as_str().to_owned();
+    // Store the document before the first await: a didChange that is handled while this
+    // handler waits for the client must find the document, otherwise the change is lost.
+    let lang = Self::infer_lang_from_uri(&text_doc.uri)?;
+    let root = AstGrep::new(&text_doc.text, lang);
+    let versioned = VersionedAst {
+      version: text_doc.version,
+      root,
+    };
+    #[cfg(ast_grep_verif)]
+    verif::probe_lock(&self.map, &uri, "on_open");
+    self.map.insert(uri.to_owned(), versioned); // don't lock dashmap
     if self
       .should_skip_file_outside_workspace(&text_doc)
       .await
       .is_some()
     {
+      #[cfg(ast_grep_verif)]
+      verif::probe_lock(&self.map, &uri, "on_open");
+      self.map.remove(&uri);
       return None;
     }
-    let uri = text_doc.uri.as_str().to_owned();
-    let text = text_doc.text;
     self
       .client
       .log_message(MessageType::LOG, "Parsing doc.")
       .await;
-    let lang = Self::infer_lang_from_uri(&text_doc.uri)?;
-    let root = AstGrep::new(text, lang);
-    let versioned = VersionedAst {
-      version: text_doc.version,
-      root,
-    };
     self
       .client
       .log_message(MessageType::LOG, "Publishing init diagnostics.")
       .await;
-    #[cfg(ast_grep_verif)]
-    verif::probe_lock(&self.map, &uri, "on_open");
-    self.map.insert(uri.to_owned(), versioned); // don't lock dashmap
     self.publish_diagnostics(text_doc.uri).await;
     Some(())
   }
